@@ -83,6 +83,9 @@ impl C06 {
         let mut first: Option<String> = None;
         for i in 0..self.repeats {
             let mut session = Session::new(c.u.clone(), &Runtime::Sync, activity);
+            // a third of the cases: the provider's sort is stable but ties pairs of candidates
+            // (builds of one version): still a deterministic provider
+            session.provider().sort_ties.set(pick(3, 3) == 1);
             let mut obs = String::new();
             if let Some(w) = &warm {
                 let r0 = session.solve(w, Cancel::Never, false, true);
@@ -143,7 +146,7 @@ impl C06 {
     }
 }
 
-struct_property!(C06, "C06", "tape -> mixed sat/unsat universe + problem, deterministic non-yielding provider; each case is solved 4 times with fresh solvers in this process (every ahash RandomState gets fresh keys) and the whole batch again in 2-3 freshly started processes (new per-process hash seeds, new address layout); the observation (solution vector in order, or conflict message + both graphviz renderings) must be byte-identical. The configuration belongs to the case: generated activity parameters (default, (0,1), (10,0.5), (3e20,0.95)), and in half of the cases the observation is a HISTORY - a sub-problem solved first on the same solver, then the problem. Non-trivial: >=1 learnt clause, or an unsat case whose simplified graph merged sibling candidates. Distinct = distinct hash of case.");
+struct_property!(C06, "C06", "tape -> mixed sat/unsat universe + problem, deterministic non-yielding provider; each case is solved 4 times with fresh solvers in this process (every ahash RandomState gets fresh keys) and the whole batch again in 2-3 freshly started processes (new per-process hash seeds, new address layout); the observation (solution vector in order, or conflict message + both graphviz renderings) must be byte-identical. The configuration belongs to the case: generated activity parameters (default, (0,1), (10,0.5), (3e20,0.95)), a provider sort that ties pairs of candidates (a third of the cases), and in half of the cases the observation is a HISTORY - a sub-problem solved first on the same solver, then the problem. Non-trivial: >=1 learnt clause, or an unsat case whose simplified graph merged sibling candidates. Distinct = distinct hash of case.");
 
 // =============================================================================== C07
 
